@@ -259,7 +259,11 @@ impl Containers {
         op: &COp,
         worlds: &mut Vec<Option<World>>,
         resolve: &dyn Fn(&HRef) -> Entity,
+        opnum: usize,
     ) -> (String, String, Vec<Entity>, Vec<String>) {
+        // every other op takes the single-component / dynamic flavour of the API where there is one
+        let alt = opnum % 2 == 1;
+        let single = |k: usize| matches!(k, 1..=9 | 26 | 28);
         let mut handles = Vec::new();
         let mut notes = Vec::new();
         let mut lhs = op.show();
@@ -388,6 +392,7 @@ impl Containers {
                 let cb = self.cmdbufs.get_mut(q).expect("harness: no such command buffer");
                 let serials: Vec<u64> = bundle.iter().map(|x| x.1).collect();
                 match k {
+                    Some(k) if alt && single(*k) => with_type!(bundle[0].0, T, cb.insert_one(e, <T as Comp>::new(bundle[0].1))),
                     Some(k) => with_bundle!(*k, T, cb.insert(e, <T as StaticBundle>::make(&serials))),
                     None => {
                         let mut eb = make_builder(bundle);
@@ -400,7 +405,11 @@ impl Containers {
             COp::QRemove { q, h, k } => {
                 let e = resolve(h);
                 let cb = self.cmdbufs.get_mut(q).expect("harness: no such command buffer");
-                with_bundle!(*k, T, cb.remove::<T>(e));
+                if alt && single(*k) {
+                    with_type!(bundle_types(*k)[0], T, cb.remove_one::<T>(e));
+                } else {
+                    with_bundle!(*k, T, cb.remove::<T>(e));
+                }
                 lhs = format!("qremove Q{} h={} k={} ts={}", q, show_entity(e), k, show_nats(&bundle_types(*k)));
                 "ok".into()
             }
@@ -439,7 +448,11 @@ impl Containers {
                 let mut ty = ColumnBatchType::new();
                 for &t in decl {
                     with_type!(t, T, {
-                        ty.add::<T>();
+                        if alt {
+                            ty.add_dynamic(hecs::TypeInfo::of::<T>());
+                        } else {
+                            ty.add::<T>();
+                        }
                     });
                 }
                 let mut d = decl.clone();
